@@ -2,7 +2,7 @@
    length (any interleaving of AwaitReply / RollForward / RollBackward that a
    protocol-conforming server can emit), every schedule of recvLoop, the
    handlers and syncLoop. *)
-From V Require Import Lib.Base C21.Model C21.Proofs C21.Stop C21.StopProofs.
+From V Require Import Lib.Base C21.Model C21.Proofs C21.Stop C21.StopProofs C21.StopTermination C21.StopCap.
 
 (* C21_callbacks: the callback log is, in order, exactly the roll-forward /
    roll-backward messages recvLoop has taken (each carrying its own point and
@@ -304,4 +304,90 @@ Example C21_stop_silent_at_tip :
      XStopCall; XStopBusy; XStopLife; XStopEnq; XStopDrainTimeout; XStopUnbusy; XStopClose; XStopProto; XStopUnlife;
      XSendExit; XRecvExit; XSyncExit; XStopReturn] = Some s
   /\ client_stuck 1 s = true /\ tp (k s) = TReturned /\ timedout (k s) = true /\ wire (e s) = [(QReq, true)].
+Proof. eexists. split; [vm_compute; reflexivity|]. repeat split. Qed.
+
+(* ======================= termination: every run extends to a maximal run =====================
+   StopTermination.v: the natural number [measure] (weighted sum of the server's remaining
+   budget, undelivered messages, handler / syncLoop / sendLoop program counters, ready signals,
+   queued messages and transitions, the send token, Stop's remaining statements) strictly
+   decreases on EVERY step of the extended LTS - server steps included; there is no loop to
+   assume fair (the TryLock polling of Stop() is not a label).  Hence: *)
+Theorem C21_stop_measure_decreases : forall limit s l s',
+  xstep limit s l = Some s' -> measure limit s' < measure limit s.
+Proof. exact measure_step. Qed.
+Print Assumptions C21_stop_measure_decreases.
+
+(* C21_stop_total.  For every effective limit with limit + 1 <= 80, every server budget, every
+   run from the state where Sync() returns: (a) the run is finite - its length is bounded by
+   the measure of the initial state; (b) it extends to a maximal run (a state in which NO label
+   at all is enabled, the server's included); (c) in EVERY maximal extension Stop() has been
+   called (calling it is always possible) and has returned, stopChan is closed, sendLoop /
+   recvLoop / syncLoop are gone, and - under [side_ok], if the 250 ms drain wait did not expire -
+   Done is on the wire, written with agency, the last message. *)
+Theorem C21_stop_total : forall limit p bud ls s,
+  1 <= limit -> limit + 1 <= sendq_cap ->
+  xrun limit (xinit p bud) ls = Some s ->
+  length ls <= measure limit (xinit p bud)
+  /\ (exists ls' s', xrun limit s ls' = Some s' /\ terminal limit s')
+  /\ (forall ls' s', xrun limit s ls' = Some s' -> terminal limit s' ->
+        tp (k s') <> TNone /\ stopped_end s'
+        /\ (side_ok s' = true -> timedout (k s') = false -> clean_end s')).
+Proof.
+  intros limit p bud ls s L1 L2 HR. split; [|split].
+  - pose proof (run_bounded limit ls _ _ HR). lia.
+  - apply (maximal_run_exists limit (measure limit s)). lia.
+  - intros ls' s' HR' T. destruct (terminal_stuck limit s' T) as [ST NT].
+    pose proof (xrun_app limit ls ls' _ _ _ HR HR') as HR2.
+    destruct (C21_stop limit p bud (ls ++ ls') s' L1 L2 HR2 NT ST) as [A B]. auto.
+Qed.
+Print Assumptions C21_stop_total.
+
+(* ======================= the queue condition at its boundary: limit = 80 ======================
+   C21_stop assumes limit + 1 <= 80; limit 81 is refuted (C21_stop_refuted_sendqueue_full).
+   limit = 80 is decided here: it is fine.  With 80 requests queued the queue is full and
+   SendMessage(Done) blocks, but 80 unwritten requests mean that every earlier request was
+   answered and delivered: the engine is in Idle, the send token exists (StopCap.TokI) and
+   sendLoop takes a request out - Stop() is delayed, never stuck.  The TryLock loop never gives
+   up either (inside its request loop syncLoop has fewer than 80 queued).  So the proved range
+   is exactly 1 <= limit <= 80 and the refuted range starts at 81. *)
+Theorem C21_stop_cap : forall limit p bud ls s,
+  1 <= limit -> limit <= sendq_cap ->
+  xrun limit (xinit p bud) ls = Some s ->
+  tp (k s) <> TNone -> client_stuck limit s = true ->
+  gaveup (k s) = false /\ stopped_end s /\ (side_ok s = true -> timedout (k s) = false -> clean_end s).
+Proof.
+  intros limit p bud ls s L1 L2 HR NT ST.
+  destruct (cap_run limit ls L1 L2 _ _ (reach_init limit p bud) (TokI_init p bud) eq_refl HR) as (RS & HT & GU).
+  split; [exact GU|split].
+  - apply (stuck_returned_cap limit s L1 L2 RS HT GU NT ST).
+  - intros SO TO. apply (stuck_clean_cap limit s L1 L2 RS HT GU NT ST). apply good_of_side; try assumption. apply RS.
+Qed.
+Print Assumptions C21_stop_cap.
+
+(* ... and the total version for the whole range 1..80 *)
+Theorem C21_stop_total_cap : forall limit p bud ls s,
+  1 <= limit -> limit <= sendq_cap ->
+  xrun limit (xinit p bud) ls = Some s ->
+  length ls <= measure limit (xinit p bud)
+  /\ (exists ls' s', xrun limit s ls' = Some s' /\ terminal limit s')
+  /\ (forall ls' s', xrun limit s ls' = Some s' -> terminal limit s' ->
+        tp (k s') <> TNone /\ stopped_end s'
+        /\ (side_ok s' = true -> timedout (k s') = false -> clean_end s')).
+Proof.
+  intros limit p bud ls s L1 L2 HR. split; [|split].
+  - pose proof (run_bounded limit ls _ _ HR). lia.
+  - apply (maximal_run_exists limit (measure limit s)). lia.
+  - intros ls' s' HR' T. destruct (terminal_stuck limit s' T) as [ST NT].
+    pose proof (xrun_app limit ls ls' _ _ _ HR HR') as HR2.
+    destruct (C21_stop_cap limit p bud (ls ++ ls') s' L1 L2 HR2 NT ST) as (_ & A & B). auto.
+Qed.
+Print Assumptions C21_stop_total_cap.
+
+(* non-vacuity at the boundary: limit 80, the queue really is full when Stop() wants to
+   enqueue Done (XStopEnq refused), and sendLoop can move *)
+Example C21_stop_cap_full_but_not_stuck :
+  exists s, xrun 80 (xinit false 1)
+    ([XTakeTok; XDeq; XBatchEnd; XSegOut; XB (LSrvReply upd_a); XB LDeliver; XB (LCb upd_a); XB LPush; XB LTake; XB LProc]
+     ++ repeat (XB LSendReq) 80 ++ [XB LSendEnd; XStopCall; XStopBusy; XStopLife]) = Some s
+  /\ length (sq (e s)) = sendq_cap /\ enabled 80 s XStopEnq = false /\ enabled 80 s XTakeTok = true.
 Proof. eexists. split; [vm_compute; reflexivity|]. repeat split. Qed.
